@@ -229,6 +229,14 @@ def module_case(task):
             import scipy.special
             flat = symref.flatten(sym) if not isinstance(sym, sp.Expr) \
                 else [sym]
+            # the symbolic form is an expression in the symbols it was
+            # given (lambdify below matches by NAME and would not notice a
+            # different symbol that merely prints as 't')
+            foreign = set().union(*[sp.sympify(e_).free_symbols
+                                    for e_ in flat]) - {ts, xs, ys, zs}
+            if foreign:
+                bad.append((f'{fn}:symbolic-form-foreign-symbols',
+                            sorted(map(repr, foreign))))
             lam = sp.lambdify([ts, xs, ys, zs], flat, [
                 {'hyper': lambda a_, b_, z_: scipy.special.hyp2f1(
                     a_[0], a_[1], b_[0], z_)}, 'numpy'])
